@@ -11,6 +11,7 @@ Section Pianoroll.
   Variable size : Z.                    (* input_size *)
 
   Definition pr_num_classes : Z := 2 ^ size.
+  Definition pr_default_label : Z := 0.
 
   (* _event_to_label; None = a negative pitch (2**pitch is then a float, outside
      the integer label space) *)
